@@ -171,6 +171,33 @@ func explore(bt *built, j *job) *jobResult {
 
 // replayInProcess replays schedules inside one child (same harness as the exploration).
 func replayInProcess(bt *built, j *job, scheds [][]int, repeat int, keep string) ([][]gs.Outcome, error) {
+	key := fmt.Sprintf("%p|%v|%d|%s", j, scheds, repeat, keep)
+	if v, ok := inprocMemo.Load(key); ok {
+		return v.([][]gs.Outcome), nil
+	}
+	r, err := replayInProcessRaw(bt, j, scheds, repeat, keep)
+	if err == nil {
+		inprocMemo.Store(key, r)
+	}
+	return r, err
+}
+
+var inprocMemo sync.Map
+
+// replayPlan: where the artefacts of the first completing schedule are kept and how often every
+// completing class is replayed (8 times when the outputs differ, to tell map order from schedule).
+func replayPlan(bt *built, j *job, classes int) (keep string, repeat int) {
+	if j.Bound != fullBound {
+		keep = filepath.Join(bt.Scratch, "keep", strings.ReplaceAll(j.label(), "/", "_"))
+	}
+	repeat = 1
+	if classes > 1 {
+		repeat = 8
+	}
+	return
+}
+
+func replayInProcessRaw(bt *built, j *job, scheds [][]int, repeat int, keep string) ([][]gs.Outcome, error) {
 	dir := filepath.Join(bt.Scratch, "run", strings.ReplaceAll(j.label(), "/", "_"), fmt.Sprintf("replay-%d", time.Now().UnixNano()))
 	defer os.RemoveAll(dir)
 	r, err := runChild(bt.GsBin, j.args(), "replay", childOpts{Schedules: scheds, Repeat: repeat, KeepDir: keep}, dir)
@@ -183,10 +210,56 @@ func replayInProcess(bt *built, j *job, scheds [][]int, repeat int, keep string)
 // replayFreshProcess runs ONE schedule in a fresh process of the instrumented compiler
 // (process-per-schedule mode of gosched: VERIF_SCHED, deadlock detected by the child itself).
 func replayFreshProcess(bt *built, j *job, choices []int) gs.Outcome {
+	key := fmt.Sprintf("%p|%v", j, choices)
+	if v, ok := freshMemo.Load(key); ok {
+		return v.(gs.Outcome)
+	}
 	sem <- struct{}{}
 	defer func() { <-sem }()
 	cmd := append([]string{bt.GsBin}, j.args()...)
-	return gs.ReplayProcess(cmd, nil, gs.ProcOptions{Timeout: 120 * time.Second, ObserveFiles: true, ObserveStdout: true}, choices)
+	o := gs.ReplayProcess(cmd, nil, gs.ProcOptions{Timeout: 120 * time.Second, ObserveFiles: true, ObserveStdout: true}, choices)
+	freshMemo.Store(key, o)
+	return o
+}
+
+// freshMemo lets the per-job goroutines run the fresh-process cross-checks in parallel before the
+// (sequential, deterministic) reporting loop asks for them.
+var freshMemo sync.Map
+
+// prefetch runs the fresh-process replays the reporting loop will need for this job.
+func prefetch(bt *built, r *jobResult) {
+	if r.Err != nil {
+		return
+	}
+	var wg sync.WaitGroup
+	do := func(ch []int) {
+		wg.Add(1)
+		go func() { defer wg.Done(); replayFreshProcess(bt, r.Job, ch) }()
+	}
+	for _, si := range r.Shapes {
+		do(si.First.Choices)
+	}
+	if r.Rep.PanicCount > 0 && len(r.Rep.Panics) > 0 {
+		do(r.Rep.Panics[0].Choices)
+	}
+	var completing []string
+	for k := range r.Rep.Outcomes {
+		if !strings.Contains(k, "[") {
+			completing = append(completing, k)
+		}
+	}
+	sort.Strings(completing)
+	if len(completing) > 0 {
+		do(r.Rep.FirstOfEachOutcome[completing[0]].Choices)
+		var scheds [][]int
+		for _, k := range completing {
+			scheds = append(scheds, r.Rep.FirstOfEachOutcome[k].Choices)
+		}
+		keep, repeat := replayPlan(bt, r.Job, len(completing))
+		wg.Add(1)
+		go func() { defer wg.Done(); replayInProcess(bt, r.Job, scheds, repeat, keep) }()
+	}
+	wg.Wait()
 }
 
 // shapeOf abstracts a blocked-goroutine set exactly as the child does.
